@@ -19,6 +19,7 @@ use robopoker::gameplay::ply::Turn;
 use robopoker::mccfr::blueprint::Blueprint;
 use robopoker::mccfr::bucket::Bucket;
 use robopoker::mccfr::counterfactual::Counterfactual;
+use robopoker::mccfr::edge::Edge;
 use robopoker::mccfr::encoder::Encoder;
 use robopoker::mccfr::info::Info;
 use robopoker::mccfr::partition::Partition;
@@ -230,14 +231,83 @@ fn check_set(run: &mut Run, d: &Dump, v: &[f64], va: &[f64], roots: &[usize], re
     }
 }
 
+/// replica of Blueprint::tree / Blueprint::sample on the real tree primitives (Tree::plant / fork,
+/// Node::realize, Encoder::branches, Profile::witness / explore_all / explore_any), with the
+/// opponent's branch chosen by a script instead of explore_one, so that long hands (lines deeper
+/// than the 16-edge window) are built deliberately.
+fn directed_tree(profile: &mut Profile, encoder: &Encoder, style: u64, rng: &mut Rng) -> Tree {
+    fn pick(node: &robopoker::mccfr::node::Node, branches: &Vec<robopoker::mccfr::tree::Branch>, style: u64, depth: usize, rng: &mut Rng) -> usize {
+        let edges: Vec<Edge> = branches.iter().map(|b| *b.edge()).collect();
+        if style == 9 {
+            // small raises before the turn, check the turn, jam the river: the traverser's different
+            // river lines then end in nodes deeper than 16 edges that share a bucket
+            use robopoker::cards::street::Street;
+            let passive = edges.iter().position(|e| matches!(e, Edge::Check)).or(edges.iter().position(|e| matches!(e, Edge::Call)));
+            let choice = match node.data().game().street() {
+                Street::Pref | Street::Flop => edges.iter().position(|e| matches!(e, Edge::Raise(_))).or(passive),
+                Street::Turn => passive,
+                Street::Rive => edges.iter().position(|e| matches!(e, Edge::Shove)),
+            };
+            return choice.unwrap_or(0);
+        }
+        let raises: Vec<usize> = (0..edges.len()).filter(|&i| matches!(edges[i], Edge::Raise(_))).collect();
+        let passive = edges.iter().position(|e| matches!(e, Edge::Call)).or(edges.iter().position(|e| matches!(e, Edge::Check)));
+        let smallest = raises.iter().copied().min_by(|&a, &b| {
+            let (x, y) = match (edges[a], edges[b]) { (Edge::Raise(x), Edge::Raise(y)) => (x, y), _ => unreachable!() };
+            (x.0 as i32 * y.1 as i32).cmp(&(y.0 as i32 * x.1 as i32))
+        });
+        let want_raise = match style {
+            0 => true,                       // always the smallest raise while one is offered
+            1 => rng.chance(7, 10),          // mostly raising
+            2 => false,                      // always call / check: the traverser does the raising
+            3 => depth % 2 == 0,             // alternate
+            _ => rng.chance(1, 2),
+        };
+        match (want_raise, smallest, passive) {
+            (true, Some(i), _) => i,
+            (_, _, Some(i)) => i,
+            (_, Some(i), None) => i,
+            _ => 0,
+        }
+    }
+    fn sample(profile: &mut Profile, encoder: &Encoder, node: &robopoker::mccfr::node::Node, style: u64, depth: usize, rng: &mut Rng) -> Vec<robopoker::mccfr::tree::Branch> {
+        let walker = profile.walker();
+        let mut branches = encoder.branches(node);
+        match (branches.len(), node.player()) {
+            (0, _) => vec![],
+            (_, p) if p == Player::chance() => profile.explore_any(branches, node),
+            (_, p) if p != walker => {
+                profile.witness(node, &branches);
+                let i = pick(node, &branches, style, depth, rng);
+                vec![branches.remove(i)]
+            }
+            _ => {
+                profile.witness(node, &branches);
+                profile.explore_all(branches, node)
+            }
+        }
+    }
+    let mut tree = Tree::empty(profile.walker());
+    let mut todo: Vec<(robopoker::mccfr::tree::Branch, usize)> = {
+        let ref node = tree.plant(encoder.seed());
+        sample(profile, encoder, node, style, 0, rng).into_iter().map(|b| (b, 1)).collect()
+    };
+    while let Some((branch, depth)) = todo.pop() {
+        let ref node = tree.fork(branch);
+        let kids = sample(profile, encoder, node, style, depth, rng);
+        todo.extend(kids.into_iter().map(|b| (b, depth + 1)));
+    }
+    tree
+}
+
 fn main() {
     let a = args();
     let mut rng = Rng::new(a.seed);
     let mut run = Run::new(&a.out);
     quiet_panics();
-    let (epochs, batch, per_tree, synthetic_per_tree, converged) = if a.thorough() { (60usize, 8usize, 40usize, 12usize, 12usize) } else { (14, 3, 8, 6, 4) };
+    let (epochs, batch, per_tree, synthetic_per_tree, converged, directed, stored) = if a.thorough() { (60usize, 8usize, 40usize, 12usize, 12usize, 12usize, 8usize) } else { (14, 3, 8, 6, 4, 4, 2) };
     run.rule = format!(
-        "{epochs} training epochs x {batch} trees sampled by the real Blueprint::tree from an initially empty Profile with the stand-in abstraction, traverser alternating; profile updated as Blueprint::solve does; then one tree at each side of the Discount/Explore and Explore/Prune phase boundaries (epoch counter set by the hook); then {converged} trees in 'converged strategy' profile states (every traverser bucket of the tree: one action ~1, the others 1e-10..1e-12 via verif_set_memory, both traversers). Search oracle: textbook estimator in f64 on every information set of every tree (tolerance {TOL}·Σ|terms|). Correspondence: every tree dumped, with its multi-node information sets, its largest information set and a random sample (up to {per_tree} per tree). An information set is non-trivial when Σ|terms| > 0 and it has >= 2 actions; distinct by (epoch, tree, bucket id). Deals come from the code's own thread_rng (every third tree uses the forced draw index from VERIF_SEED); each dumped tree is self-contained in ops.txt"
+        "{epochs} training epochs x {batch} trees sampled by the real Blueprint::tree from an initially empty Profile with the stand-in abstraction, traverser alternating; profile updated as Blueprint::solve does; then one tree at each side of the Discount/Explore and Explore/Prune phase boundaries (epoch counter set by the hook); then {directed} directed long-hand trees (scripted opponent) through the real Partition::from, checked against an independent grouping by bucket; {stored} trees with extreme STORED regrets (metamorphic: regret_vector unchanged bit for bit); then {converged} trees in 'converged strategy' profile states (every traverser bucket of the tree: one action ~1, the others 1e-10..1e-12 via verif_set_memory, both traversers). Search oracle: textbook estimator in f64 on every information set of every tree (tolerance {TOL}·Σ|terms|). Correspondence: every tree dumped, with its multi-node information sets, its largest information set and a random sample (up to {per_tree} per tree). An information set is non-trivial when Σ|terms| > 0 and it has >= 2 actions; distinct by (epoch, tree, bucket id). Deals come from the code's own thread_rng (every third tree uses the forced draw index from VERIF_SEED); each dumped tree is self-contained in ops.txt"
     );
     let bp = Blueprint::verif_new(Profile::default(), Encoder::default());
     let profile = bp.verif_profile();
@@ -245,9 +315,9 @@ fn main() {
     // the training epochs, then one tree at each side of every phase boundary (Discount / Explore /
     // Prune: the update step's discount and any phase-keyed code run there), both traversers
     let (dph, pph) = (robopoker::verif::CFR_DISCOUNT_PHASE, robopoker::verif::CFR_PRUNNING_PHASE);
-    let mut schedule: Vec<(usize, usize, bool)> = (0..epochs).map(|e| (e, batch, false)).collect();
+    let mut schedule: Vec<(usize, usize, u8)> = (0..epochs).map(|e| (e, batch, 0)).collect();
     for e in [dph - 1, dph, dph + 1, pph - 1, pph, pph + 1] {
-        schedule.push((e, 1, false));
+        schedule.push((e, 1, 0));
     }
     // "converged strategy" profile states (late training: abandoned actions keep an average-strategy
     // weight of ~1e-10 .. 1e-12): the traverser's stored policies of every bucket of the tree are
@@ -257,13 +327,24 @@ fn main() {
     // computation such a product only ever multiplies a leaf's payoff inside a sum whose other terms
     // are O(payoff), so flushing it to 0 costs an absolute error far below the 1e-4 x sum|terms|
     // tolerance: the clean code stays within it.
-    for k in 0..converged {
-        schedule.push((16000 + k, 1, true));
+    // directed long hands (scripted opponent, as in c10.rs): the real Partition::from gets trees in
+    // which several traverser nodes share a bucket (histories beyond the 16-edge window)
+    for k in 0..directed {
+        schedule.push((1000 + k, 1, 3));
     }
-    for (epoch, batch, converged) in schedule {
+    // profile states whose STORED regrets are near / below REGRET_MIN or huge while the policy
+    // column stays as trained: the recorded regret must not depend on them
+    for k in 0..stored {
+        schedule.push((2000 + k, 1, 2));
+    }
+    for k in 0..converged {
+        schedule.push((16000 + k, 1, 1));
+    }
+    for (epoch, batch, mode) in schedule {
+        let converged = mode == 1;
         if epoch >= epochs {
             profile.write().unwrap().verif_set_epochs(epoch);
-            if !converged {
+            if mode == 0 {
                 run.count(&format!("phase-boundary-epoch={epoch}"));
             }
         }
@@ -275,6 +356,18 @@ fn main() {
             }
             let mut tree = bp.verif_tree();
             robopoker::verif::set_draw_index(None);
+            if mode == 3 {
+                // the first two (one per traverser): small raises, checked turn, river jam — the line on
+                // which different river actions of the traverser end in nodes sharing a bucket
+                let style = if epoch < 1002 { 9 } else { [0u64, 2][epoch % 2] };
+                for _ in 0..5 {
+                    tree = directed_tree(&mut profile.write().unwrap(), &Encoder::default(), style, &mut rng);
+                    if style == 9 || tree.all().len() <= 9000 {
+                        break;
+                    }
+                }
+                run.count("directed-deep-tree");
+            }
             if converged {
                 for _ in 0..6 {
                     let n = tree.all().len();
@@ -309,14 +402,55 @@ fn main() {
             run.count(&format!("walker=P{}", epoch % 2));
             run.line(&d.line(), &format!("tree {} {} wf external-shape", n, nleaves));
             let infos: Vec<Info> = Partition::from(tree).into();
+            // ---- the real partition against an independent grouping of the traverser's nodes by bucket
+            let mut groups: BTreeMap<usize, Vec<usize>> = BTreeMap::new();
+            for i in 0..n {
+                if d.kind[i] == 'w' && !d.kids[i].is_empty() {
+                    groups.entry(d.bucket[i]).or_default().push(i);
+                }
+            }
+            run.spec_checked += 1;
+            {
+                let mut got: Vec<Vec<usize>> = infos.iter().map(|i| { let mut r: Vec<usize> = i.roots().iter().map(|x| x.index().index()).collect(); r.sort(); r }).collect();
+                got.sort();
+                let mut want: Vec<Vec<usize>> = groups.values().cloned().collect();
+                want.sort();
+                if got != want {
+                    let bad = want.iter().find(|g| !got.contains(g)).cloned().unwrap_or_default();
+                    let near = got.iter().find(|g| g.iter().any(|x| bad.contains(x))).cloned().unwrap_or_default();
+                    run.fail("information-set-not-all-nodes-of-bucket", &format!("epoch {epoch} tree {tree_no} (ops line {})", run.lines), &format!("{bad:?}"), &format!("{near:?}"));
+                }
+            }
+            // metamorphic: the recorded regret must not depend on the regrets already stored
+            let before: Vec<BTreeMap<u8, f32>> = if mode == 2 {
+                let p = profile.read().unwrap();
+                infos.iter().map(|i| p.regret_vector(i).iter().map(|(e, r)| (u8::from(*e), *r)).collect()).collect()
+            } else {
+                vec![]
+            };
+            if mode == 2 {
+                let mut p = profile.write().unwrap();
+                let mut k = 0usize;
+                for info in &infos {
+                    let node = info.node();
+                    let bucket = node.bucket().clone();
+                    for e in node.outgoing() {
+                        let (_, pol) = p.verif_memory(&bucket, e).expect("witnessed");
+                        let stored = [-2.999e5f32, -3.0e5, -3.0001e5, -3.5e5, -1.0e6, 3.0e5, 1.0e30, -1.0e30][k % 8];
+                        p.verif_set_memory(&bucket, e, stored, pol);
+                        k += 1;
+                    }
+                }
+                run.count("stored-regrets-extreme-tree");
+            }
             // which information sets go to the model driver
             let mut chosen: Vec<usize> = vec![];
-            let sizes: Vec<usize> = infos.iter().map(|i| i.roots().len()).collect();
+            let sizes: Vec<usize> = infos.iter().map(|i| groups.get(&d.bucket[i.roots()[0].index().index()]).map(|g| g.len()).unwrap_or(1)).collect();
             let mut multi: Vec<usize> = (0..infos.len()).filter(|&i| sizes[i] > 1).collect();
-            multi.truncate(per_tree / 2);
+            multi.truncate(if mode == 3 { 12 } else { per_tree / 2 });
             chosen.extend(multi);
             if let Some(big) = (0..infos.len()).min_by_key(|&i| infos[i].roots()[0].index().index()) {
-                if !chosen.contains(&big) {
+                if mode != 3 && !chosen.contains(&big) {
                     chosen.push(big);
                 }
             }
@@ -336,10 +470,24 @@ fn main() {
                     chosen.push(i);
                 }
             }
+            // on the (large) directed trees only the multi-node sets and a random sample are evaluated
+            let selected: Vec<bool> = (0..infos.len()).map(|i| mode != 3 || sizes[i] > 1 || chosen.contains(&i) || rng.chance(150, infos.len().max(150) as u64)).collect();
             for (ix, info) in infos.into_iter().enumerate() {
-                let roots: Vec<usize> = info.roots().iter().map(|r| r.index().index()).collect();
+                if !selected[ix] {
+                    continue;
+                }
+                // the set as it should be: every traverser node of the tree with this bucket
+                let first = info.roots()[0].index().index();
+                let roots: Vec<usize> = groups.get(&d.bucket[first]).cloned().unwrap_or_else(|| vec![first]);
                 let cf = { profile.read().unwrap().counterfactual(info) };
                 let real: BTreeMap<u8, f32> = cf.regret().inner().iter().map(|(e, r)| (u8::from(*e), *r)).collect();
+                if mode == 2 {
+                    run.spec_checked += 1;
+                    let same = before[ix].len() == real.len() && before[ix].iter().all(|(e, r)| real.get(e).map(|x| x.to_bits()) == Some(r.to_bits()));
+                    if !same {
+                        run.fail("regret-depends-on-stored-regret", &format!("epoch {epoch} tree {tree_no} roots {roots:?}"), &format!("{:?}", before[ix]), &format!("{real:?}"));
+                    }
+                }
                 check_set(&mut run, &d, &v, &va, &roots, Some(real), &format!("epoch {epoch} tree {tree_no}"), chosen.contains(&ix), false);
                 cfs.push(cf);
             }
